@@ -88,6 +88,8 @@ class WfDef(object):
             return {var: self._e(kind[1])}
         if kind == "inc":
             return {var: self._e("ctx()." + var + " + 1")}
+        if isinstance(kind, tuple) and kind[0] == "copy":
+            return {var: self._e("ctx()." + kind[1])}
         if isinstance(kind, tuple) and kind[0] == "const":
             return {var: kind[1]}
         raise ValueError(p)
@@ -305,6 +307,29 @@ def _catalogue():
     # D28 a task with a retry policy reached by two branches inside a loop (all arrivals share the route)
     add("D28", {"init": T([("ok", [], ["start"])]), "start": T([("any", [], ["a", "b"])]), "a": T([("ok", [], ["x"])]), "b": T([("ok", [], ["x"])]),
                 "x": T([("c0", [], ["start"]), ("fail", [], ["noop"])], retry={"count": 1, "delay": 5}, delay=2)})
+    # D29 a loop whose body also transitions, on every iteration, to a multi-referenced task outside the loop
+    # (each firing opens a new route with the same route details)
+    add("D29", {"init": T([("ok", [], ["work"]), ("fail", [], ["audit"])]),
+                "work": T([(("lt", "i", 1), [("i", "inc")], ["work"]), ("ok", [], ["audit"])]),
+                "audit": T([("ok", [], ["archive"])]), "archive": T()}, vars={"i": 0})
+    # D29w the same with a with-items task as the multi-referenced task
+    add("D29w", {"init": T([("ok", [], ["work"]), ("fail", [], ["w"])]),
+                 "work": T([(("lt", "i", 1), [("i", "inc")], ["work"]), ("ok", [], ["w"])]),
+                 "w": T(items=2, conc=2)}, vars={"i": 0}, inputs={"xs": [10, 11]}, input_decl=["xs"])
+    # D04r join-all whose inbound transitions are guarded by raw (not necessarily boolean) result values
+    add("D04r", {"s": T([("any", [], ["a", "b"])]), "a": T([("raw0", [], ["j"])]),
+                 "b": T([("raw0", [], ["j"])]), "j": T([("any", [], ["z"])], join="all"), "z": T()})
+    # D30 sibling transitions of one task: the first publishes i, the second copies i, the third tests i;
+    # each transition is evaluated against the context the task itself saw
+    add("D30", {"s": T([("any", [("i", ("const", 5))], ["a"]), ("any", [("seen", ("copy", "i"))], ["b"]), (("ge", "i", 1), [], ["z"])]),
+                "a": T(), "b": T(), "z": T()}, vars={"i": 0}, output=["seen"])
+    # D31 vars that fail to render for the given input (the conductor fails itself when its state is first set up)
+    add("D31", {"a": T([("ok", [], ["b"])]), "b": T()}, vars={"limit": "<% int(ctx().count) %>"},
+        inputs={"count": "many"}, input_decl=["count"])
+    # D32 a retry condition that cannot be evaluated for a failed attempt (the result has no such key), beside a parallel branch
+    add("D32", {"s": T([("any", [], ["a", "b"])]),
+                "a": T([("ok", [], ["c"])], retry={"when": "<% failed() and result().nokey %>", "count": 2}),
+                "b": T(), "c": T()})
     # D06p split routes with publishes
     add("D06p", {"s": T([("any", ["x"], ["a", "b"])]), "a": T([("any", ["y"], ["m"])]),
                  "b": T([("any", ["x"], ["m"])]), "m": T([("any", ["w"], ["n"])]), "n": T()},
